@@ -1119,6 +1119,9 @@ MUTANTS = [
     dict(id="C09.m-D20-no-second-look-inside-the-flight", prop="C09", file="crates/storage/src/wide_column_cache.rs",
          old="                    if self.tiny_lfu.entry(key.clone(), |entry| {\n                        matches!(entry, tiny_lfu::Entry::Occupied(_))\n                    }) {\n                        return;\n                    }\n", new="",
          expect="C09.m/wide-column/late-fill-is-ordered-with-writes"),
+    dict(id="C09.o-invalidate-detaches-the-flight", prop="C09", file="crates/storage/src/single_flight.rs",
+         old="        let flight = self.map.read_shard(shard_index).get(key).cloned();", new="        let flight = self.map.write_shard(shard_index).remove(key);",
+         expect="C09.o/single-flight/only-the-worker-unregisters-its-flight"),
     dict(id="C12.k-varint-reader-u128-stops-on-set-bit", prop="C12", file="crates/serialize/src/postcard.rs",
          old="            result |= u128::from(byte & 0x7F) << shift;\n\n            if byte & 0x80 == 0 {",
          new="            result |= u128::from(byte & 0x7F) << shift;\n\n            if byte & 0x80 != 0 {",
